@@ -91,6 +91,9 @@ func (g *gen) resScript(idx int) error {
 
 	nW := r.Range(1, 3)
 	nSub := r.Range(1, 2)
+	if r.Intn(20) == 0 {
+		nSub = 0 // boundary: nobody subscribed, nothing may ever block
+	}
 	if g.tier == "thorough" && r.Chance(30) {
 		nSub = 3
 	}
@@ -389,7 +392,7 @@ func (g *gen) resScript(idx int) error {
 					switch gi.state {
 					case "select":
 						tags["res:"+op+"-blocked-in-bus-send"] = true
-					case "sync.RWMutex.Lock":
+					case "sync.RWMutex.Lock", "sync.Mutex.Lock":
 						tags["res:"+op+"-waits-for-c.mu-Lock"] = true
 					case "sync.RWMutex.RLock":
 						tags["res:"+op+"-waits-for-c.mu-RLock"] = true
